@@ -358,6 +358,11 @@ func (e *engine) resolveDest(q *bq) {
 		q.dest, q.resolved = e.exports[q.direct].obj, true
 	case "pcall":
 		e.resolveDest(q.dep)
+		if q.dep.loose || q.dep.cancelled {
+			// whatever happens to the answer it is pipelined on may happen to it, at any time
+			q.dest, q.loose, q.resolved = objLoose, true, true
+			return
+		}
 		if q.dep.kind != "boot" && !q.dep.resolved {
 			return // the answer it is pipelined on has no destination yet
 		}
